@@ -1,6 +1,7 @@
 package props
 
 import (
+	"encoding/json"
 	"fmt"
 	"net/url"
 	"slices"
@@ -365,7 +366,7 @@ func (tw *tokenWorld) retire(g *grantedToken) {
 
 // mangle returns a token string derived from a genuine one: tampered, re-encrypted or garbage.
 func (tw *tokenWorld) mangle(ch *kernel.Chooser, tok string) (string, string) {
-	switch ch.Int(6) {
+	switch ch.Int(7) {
 	case 0:
 		if len(tok) > 10 {
 			i := 5 + ch.Int(len(tok)-6)
@@ -390,6 +391,11 @@ func (tw *tokenWorld) mangle(ch *kernel.Chooser, tok string) (string, string) {
 		}
 	case 4:
 		return tok + "A", "suffix"
+	case 5: // a JWT signed with the provider's own key but naming another issuer (a token of another tenant / host)
+		key := tw.w.Store.CurrentKey()
+		now := time.Now()
+		payload, _ := json.Marshal(map[string]any{"iss": "https://other-tenant.sim", "sub": "u1", "aud": []string{"web"}, "exp": now.Add(time.Hour).Unix(), "iat": now.Unix(), "jti": "at1", "client_id": "web"})
+		return signRaw(payload, key.Alg, key.Priv, key.KID), "other-issuer-jwt"
 	}
 	return tok + ".x", "extra-segment"
 }
